@@ -257,8 +257,11 @@ theorem txInv_handleMsgs (ms : List Msg) (e : Ep) (P : LState) (hi : TxInv e P)
     split
     · exact ⟨P, hi⟩
     · rename_i hc
-      simp only [hc, Bool.false_eq_true, if_false] at hleg hok
-      have hpre := processed_prefix_handleMsgs ms (handleMsg e m).1
+      have hc' : ¬ (e.closed = true) := by simpa using hc
+      rw [if_neg hc'] at hleg hok
+      simp only [] at hleg hok
+      have hi' : TxInv { e with rxMore := !ms.isEmpty || e.rx.dead } P := txInv_of_view (e := e) rfl hi
+      have hpre := processed_prefix_handleMsgs ms (handleMsg { e with rxMore := !ms.isEmpty || e.rx.dead } m).1
       have hl1 := legal_of_prefix hpre hleg
       have hP0 : legalRun {} e.processed = some P := hi.hP
       rw [processed_handleMsg, legalRun_snoc _ _ _ _ hP0] at hl1
@@ -267,7 +270,7 @@ theorem txInv_handleMsgs (ms : List Msg) (e : Ep) (P : LState) (hi : TxInv e P)
         apply hok
         apply hpre.subset
         rw [processed_handleMsg]; simp
-      exact ih _ P1 (txInv_handleMsg e P P1 m hi hP1 hokm) hleg hok
+      exact ih _ P1 (txInv_handleMsg _ P P1 m hi' hP1 hokm) hleg hok
 
 theorem txInv_recvRaw (e : Ep) (c : Bytes) (P : LState) (hi : TxInv e P)
     (hleg : (legalRun {} (recvRaw e c).1.processed).isSome)
@@ -278,18 +281,19 @@ theorem txInv_recvRaw (e : Ep) (c : Bytes) (P : LState) (hi : TxInv e P)
   split
   · rename_i hd
     simp only [hd, if_true] at hleg hok
-    have hp : (doClose (handleMsgs (rxEntry e c)
-        (feed e.rx c).2).1).1.processed =
+    have hp : (doClose { (handleMsgs (rxEntry e c)
+        (feed e.rx c).2).1 with rxMore := false }).1.processed =
         (handleMsgs (rxEntry e c) (feed e.rx c).2).1.processed := by
-      have := congrArg RxView.processed (view_doClose (handleMsgs (rxEntry e c)
-        (feed e.rx c).2).1)
+      have := congrArg RxView.processed (view_doClose { (handleMsgs (rxEntry e c)
+        (feed e.rx c).2).1 with rxMore := false })
       simpa [Ep.rxView] using this
     rw [hp] at hleg hok
     obtain ⟨P', h⟩ := txInv_handleMsgs _ _ P h0 hleg hok
-    exact ⟨P', txInv_doClose _ _ h⟩
+    exact ⟨P', txInv_doClose _ _ (txInv_of_view rfl h)⟩
   · rename_i hd
     simp only [hd, Bool.false_eq_true, if_false] at hleg hok
-    exact txInv_handleMsgs _ _ P h0 hleg hok
+    obtain ⟨P', h⟩ := txInv_handleMsgs _ _ P h0 hleg hok
+    exact ⟨P', txInv_of_view rfl h⟩
 
 /-- **G-tx, one step.** -/
 theorem txInv_step (e : Ep) (ev : Ev) (P : LState) (hi : TxInv e P) (htm : TimerInv e)
